@@ -34,7 +34,12 @@ NearestFrom(H, mro, a, i) == IF i > Len(mro) THEN PMissing
                              ELSE NearestFrom(H, mro, a, i + 1)
 Nearest(H, c, a) == NearestFrom(H, H[c].mro, a, 1)                 \* nearest default along the MRO (plain subclasses included)
 FirstSet(H, c, f) == LET ks == SelectSeq(SpecMRO(H, c), LAMBDA k : H[k][f].set) IN IF ks = <<>> THEN "" ELSE H[ks[1]][f].name
-KeyOf(H, c)      == FirstSet(H, c, "key")
+\* the key of a class: its own decorator argument, else the (resolved) key of the FIRST spec class after it in its MRO -- a key declared by a
+\* second spec parent makes that parent's key attribute an ordinary optional keyword of the subclass
+RECURSIVE KeyFrom(_, _, _)
+KeyFrom(H, ms, i) == IF i > Len(ms) THEN "" ELSE IF H[ms[i]].key.set THEN H[ms[i]].key.name
+                     ELSE LET rest == SpecMRO(H, ms[i]) IN IF Len(rest) < 2 THEN "" ELSE KeyFrom(H, rest, 2)
+KeyOf(H, c)      == KeyFrom(H, SpecMRO(H, c), 1)
 OverflowOf(H, c) == FirstSet(H, c, "overflow")
 HasPost(H, c)    == \E j \in 1..Len(H[c].mro) : H[H[c].mro[j]].post
 \* the hook that runs is the one ordinary attribute lookup finds on the instance: the nearest class of the MRO defining it (plain subclasses included)
